@@ -45,6 +45,14 @@ def oracleLineC20 (toks out : List String) : String :=
         else if denied then (allowed, denied, some s!"data-access-after-denied-review {kind}/{ns}")
         else if !allowed.contains ns then (allowed, denied, some s!"data-access-without-allowing-review {kind}/{ns}")
         else st
+      | ["db", trial, ns] =>
+        -- the observation-log store is keyed by the bare trial name: a read is legitimate only for a Trial that was found
+        -- in a namespace for which the user was reviewed and allowed
+        if bad.isSome then st
+        else if denied then (allowed, denied, some s!"observation-log-read-after-denied-review {trial}")
+        else if ns == "-" then (allowed, denied, some s!"observation-log-read-for-a-trial-not-found-in-the-reviewed-namespace {trial}")
+        else if !allowed.contains ns then (allowed, denied, some s!"observation-log-read-without-allowing-review {trial}/{ns}")
+        else st
       | _ => st
     let (allowed, denied, bad) := evs.foldl step ([], false, none)
     let known := isTemplate
